@@ -204,6 +204,11 @@ var voteOps = map[string]stateOp{
 }
 
 var statefulList = []statefulSpec{{
+	// the market a wager is placed on: found, active, not past its end time (a read-only function: the result is the market or an error)
+	recv: "Keeper", pkg: "x/bet/keeper", name: "getMarket", state: "betmkt", keeperPkg: "x/bet/keeper", ctxTime: "Now", returns: "value",
+	ops:    map[string]stateOp{"marketKeeper.GetMarket": {kind: "find", field: []string{"Market", "Found"}, args: []string{"marketID"}}},
+	fields: []stateField{{"Market", "G_Market"}, {"Found", "bool"}, {"Now", "Z"}},
+}, {
 	recv: "msgServer", pkg: "x/ovm/keeper", name: "VotePubkeysChange", state: "vote", keeperPkg: "x/ovm/keeper", ops: voteOps, keeperTyp: "msgServer",
 	fields: []stateField{{"TicketOK", "bool"}, {"TicketKey", "Z"}, {"VotePayload", "G_ProposalVotePayload"}, {"Vault", "G_KeyVault"}, {"VaultFound", "bool"},
 		{"Active", "list G_PublicKeysChangeProposal"}},
@@ -1214,10 +1219,12 @@ func (c *fctx) ret(s *ast.ReturnStmt) string {
 				return "None"
 			}
 		case "valerr":
-			// a message handler: the response is not modelled, the state is the result
 			if len(s.Results) == 2 {
 				if isNilIdent(s.Results[1]) {
-					return "Some g_st"
+					if c.state.returns == "value" {
+						return fmt.Sprintf("Some %s", c.expr(s.Results[0])) // a read-only function: the value is the result
+					}
+					return "Some g_st" // a message handler: the response is not modelled, the state is the result
 				}
 				return "None"
 			}
